@@ -41,6 +41,8 @@ type decodePaths struct {
 
 	Header *ssa.BasicBlock
 	Idx    *ssa.Phi // induction variable
+	Rest   *ssa.Phi // scanning form: the part of the input not yet visited
+	More   *ssa.Phi // scanning form: whether another element follows
 	Last   *ssa.Phi // remembered error
 	Cond   *ir.Term // loop condition: the guard taken into the body
 	Elem   *ir.Term // the element visited in the iteration: T[ι]
@@ -184,12 +186,21 @@ func (e *Env) modelDecodePaths(l *facts.Level, v3 bool) *decodePaths {
 				return nil
 			}
 			d.Idx = p
+		case isBasicKind(p.Type(), types.String) && d.Rest == nil:
+			d.Rest = p
+		case isBasicKind(p.Type(), types.Bool) && d.More == nil:
+			d.More = p
 		default:
 			c.Undecided(rule, who, e.P.Pos(p.Pos()), "the token loop carries state that is neither an index nor an error ("+p.Comment+" "+p.Type().String()+"): the rule knows no invariant for it")
 			return nil
 		}
 	}
-	if d.Idx == nil {
+	scan := d.Idx == nil && d.Rest != nil && d.More != nil
+	if !scan && (d.Rest != nil || d.More != nil) {
+		c.Undecided(rule, who, pos, "the token loop carries state that is neither an index, an error nor the (rest, more) pair of a strings.Cut scan: the rule knows no invariant for it")
+		return nil
+	}
+	if d.Idx == nil && !scan {
 		c.Undecided(rule, who, pos, "the token loop has no integer induction variable (tokeniser other than a loop over the split input)")
 		return nil
 	}
@@ -206,6 +217,9 @@ func (e *Env) modelDecodePaths(l *facts.Level, v3 bool) *decodePaths {
 	if len(d.Init) == 0 || len(d.Back) == 0 {
 		c.Undecided(rule, who, pos, "the loop is never entered or never repeated")
 		return nil
+	}
+	if scan {
+		return e.scanLoop(d, leaves, who, pos, v3)
 	}
 	// the loop condition is the first guard after the cut on the back paths
 	iv := ir.PhiVar(d.Idx)
@@ -300,6 +314,13 @@ func (e *Env) modelDecodePaths(l *facts.Level, v3 bool) *decodePaths {
 			return nil
 		}
 	}
+	return e.finishDecodeModel(d, who, pos, v3)
+}
+
+// finishDecodeModel: what both loop forms share (version call, 'unsupported metric' test).
+func (e *Env) finishDecodeModel(d *decodePaths, who, pos string, v3 bool) *decodePaths {
+	c := e.C
+	l := d.Level
 	if v3 {
 		gvf := e.P.LookupFunc(l.Version.Pkg, "GetVersion")
 		if gvf == nil {
@@ -404,6 +425,9 @@ func (e *Env) decodeSkeleton(l *facts.Level, v3 bool) {
 		for _, ef := range effectsAfter(lf) {
 			if ef.Pos == call.Pos && ef.Val != nil && ef.Val.Key() == call.Val.Key() {
 				break
+			}
+			if ef.Kind == "call" && d.Elem.Op == ir.OExtract && len(d.Elem.Args) == 1 && ef.Val.Key() == d.Elem.Args[0].Key() {
+				continue // the scanning step strings.Cut(rest, "/") that yields this iteration's element
 			}
 			if ef.Kind != "call" || ef.Val.Op != ir.OBuiltin {
 				c.Fail("token-loop", who, e.P.Pos(ef.Pos), "something is done in the iteration before the element is handed to decodeOne: "+clip(describeEffect(ef)))
@@ -745,4 +769,92 @@ func (e *Env) versionPrefixPaths(d *decodePaths, who string) {
 		c.Ok("version-recorded", who, pos, "Ver of the decoded object = GetVersion(prefix) on every path that decodes tokens")
 	}
 	e.getVersionShape(gvf)
+}
+
+func isBasicKind(t types.Type, k types.BasicKind) bool {
+	b, ok := t.Underlying().(*types.Basic)
+	return ok && b.Kind() == k
+}
+
+// scanLoop models the scanning form of the token loop:
+//
+//	for rest, more := vector, true; more; { tok, rest, more = strings.Cut(rest, "/"); ... }        (all elements)
+//	prefix, rest, more := strings.Cut(vector, "/"); for more { tok, rest, more = strings.Cut(rest, "/"); ... }   (elements 1..)
+//
+// With a non-empty separator this visits exactly the elements of strings.Split(vector, "/"), in order (trusted
+// library semantics, like Split's own): Cut yields the text before the first separator and whether there was one;
+// the last element is the one after which no separator is found.
+func (e *Env) scanLoop(d *decodePaths, leaves []*ir.Leaf, who, pos string, v3 bool) *decodePaths {
+	c := e.C
+	rule := "decode-skeleton"
+	l := d.Level
+	cutFn := e.externFunc(l.Pkg.Types, "strings", "Cut")
+	if cutFn == nil {
+		c.Undecided(rule, who, pos, "strings.Cut not resolvable")
+		return nil
+	}
+	slash := ir.Const(constant.MakeString("/"), types.Typ[types.String])
+	rv, mv := ir.PhiVar(d.Rest), ir.PhiVar(d.More)
+	step := ir.Call(cutFn, rv, slash)
+	head := ir.Call(cutFn, d.vec, slash)
+	d.First = -1
+	for _, lf := range d.Init {
+		r0, m0 := lf.End.State[d.Rest], lf.End.State[d.More]
+		if r0 == nil || m0 == nil {
+			c.Undecided(rule, who, pos, "the scanning state has no initial value on a path")
+			return nil
+		}
+		first := int64(-1)
+		switch {
+		case r0.Key() == d.vec.Key() && m0.Op == ir.OConst && m0.C != nil && m0.C.Kind() == constant.Bool && constant.BoolVal(m0.C):
+			first = 0
+		case r0.Key() == ext(head, 1).Key() && m0.Key() == ext(head, 2).Key():
+			first = 1
+		default:
+			c.Check(false, "vector-split", who, pos, "", "the scan does not start from the unmodified input (or from what follows its first \"/\"): rest = "+clip(r0.Pretty())+", more = "+clip(m0.Pretty()))
+			return nil
+		}
+		if d.First >= 0 && d.First != first {
+			c.Undecided(rule, who, pos, "the scan starts at different elements on different paths")
+			return nil
+		}
+		d.First = first
+	}
+	for _, lf := range d.Back {
+		ga := guardsAfter(lf)
+		if len(ga) == 0 || ga[0].Key() != mv.Key() {
+			c.Undecided(rule, who, pos, "an iteration of the scan does not start with the test of its 'more' flag")
+			return nil
+		}
+		r1, m1 := lf.End.State[d.Rest], lf.End.State[d.More]
+		if r1 == nil || m1 == nil || r1.Key() != ext(step, 1).Key() || m1.Key() != ext(step, 2).Key() {
+			c.Fail("token-loop", who, pos, "the scan is not advanced by exactly one strings.Cut(rest, \"/\") per iteration")
+			return nil
+		}
+	}
+	d.Cond = mv
+	d.Elem = ext(step, 0)
+	d.Split = ir.Call(e.externFunc(l.Pkg.Types, "strings", "Split"), d.vec, slash)
+	for _, lf := range leaves {
+		if lf.End != nil || cutOf(lf) == nil {
+			continue
+		}
+		ga := guardsAfter(lf)
+		switch {
+		case len(ga) > 0 && ga[0].Key() == d.Cond.Key():
+			d.InLp = append(d.InLp, lf)
+		case len(ga) > 0 && ga[0].Key() == ir.NotCond(d.Cond).Key():
+			d.After = append(d.After, lf)
+		default:
+			c.Undecided(rule, who, e.P.Pos(lf.Pos), "a path through the loop header does not start with the loop condition")
+			return nil
+		}
+	}
+	out := e.finishDecodeModel(d, who, pos, v3)
+	if out != nil && v3 && d.First == 1 {
+		// the version is parsed from what precedes the first "/": element 0 of the split input
+		gvf := e.P.LookupFunc(l.Version.Pkg, "GetVersion")
+		d.gv = ir.Call(gvf, ext(head, 0))
+	}
+	return out
 }
